@@ -28,6 +28,15 @@ func VfC07_ParseGEP() {
 	T := "{ i32, [4 x { i8, float }] }"
 	ptr := T + " addrspace(" + ad + ")*"
 	vecOf := func(el string) string { return "<" + vs + nd + " x " + el + ">" }
+	// the same types written through type definitions: the source type as an
+	// identified struct, the base pointer type and the index vector type as
+	// aliases (`%IV = type <4 x i64>`), which LLVM resolves
+	pre := ""
+	ivec := vecOf("i64")
+	if vfChoice("alias", 2) == 1 {
+		pre = "%ST = type " + T + "\n%BP = type %ST addrspace(" + ad + ")*\n%IV = type " + ivec + "\n"
+		T, ptr, ivec = "%ST", "%BP", "%IV"
+	}
 	form := vfChoice("form", 9)
 	var idx string
 	vecIdx := false
@@ -45,11 +54,11 @@ func VfC07_ParseGEP() {
 	case 5:
 		idx = "i64 add (i64 1, i64 2)"
 	case 6:
-		idx, vecIdx = vecOf("i64")+" zeroinitializer", true
+		idx, vecIdx = ivec+" zeroinitializer", true
 	case 7:
-		idx, vecIdx = vecOf("i64")+" undef", true
+		idx, vecIdx = ivec+" undef", true
 	default:
-		idx, vecIdx = vecOf("i64")+" poison", true
+		idx, vecIdx = ivec+" poison", true
 	}
 	baseVec := vfChoice("basevec", 2) == 1
 	baseT := ptr
@@ -57,7 +66,7 @@ func VfC07_ParseGEP() {
 		baseT = vecOf(ptr)
 	}
 	// instruction: base is a parameter; constant expression: base is null/undef
-	src := "@g = global " + T + " zeroinitializer\n" +
+	src := pre + "@g = global " + T + " zeroinitializer\n" +
 		"define void @f(" + baseT + " %p) {\n" +
 		"\t%r = getelementptr " + T + ", " + baseT + " %p, " + idx + ", i32 1, i32 2, i32 1\n" +
 		"\tret void\n}\n" +
